@@ -1,9 +1,9 @@
 SPECIFICATION Spec
-CONSTANTS NB = 4
+CONSTANTS NB = 3
  ND = 3
- NE = 2
+ NE = 3
  Tx <- McTx
- TxEp <- McTxEp
+ TxEp <- McTxEp3
  Pend <- McPend
  PruneFirst = FALSE
 INVARIANT PoolIsOffChain
